@@ -4,6 +4,9 @@ use crate::evidence::Outcome;
 pub mod histcommon;
 pub mod c01;
 pub mod c02;
+pub mod c15;
+pub mod c18;
+pub mod c20;
 
 #[derive(Clone, Copy, PartialEq, Eq, Debug)]
 pub enum Tier {
@@ -15,6 +18,9 @@ pub fn run(id: &str, tier: Tier) -> Option<Outcome> {
     Some(match id {
         "C01" => c01::run(tier),
         "C02" => c02::run(tier),
+        "C15" => c15::run(tier),
+        "C18" => c18::run(tier),
+        "C20" => c20::run(tier),
         _ => return None,
     })
 }
@@ -23,6 +29,7 @@ pub fn replay(id: &str, replay: &serde_json::Value) -> Option<Vec<crate::mc::Vio
     match id {
         "C01" => Some(histcommon::replay_hist(&c01::model(Tier::Quick, replay["world"].as_str().unwrap_or("")), replay)),
         "C02" => Some(histcommon::replay_hist(&c02::model(Tier::Quick, replay["world"].as_str().unwrap_or("")), replay)),
+        "C15" => Some(c15::replay(replay)),
         _ => None,
     }
 }
